@@ -112,7 +112,9 @@ func c17Value(rng *rand.Rand, t reflect.Type, gidx []int) (reflect.Value, string
 				return
 			}
 			p := reflect.New(f.Type().Elem())
-			if p.Elem().Kind() == reflect.String {
+			if k%4 == 3 {
+				// a non-nil pointer to a zero value: present (explicit presence), so not empty
+			} else if p.Elem().Kind() == reflect.String {
 				p.Elem().SetString([]string{"", "a", "b", "ab", "测"}[k%5])
 			} else {
 				p.Elem().SetInt(int64(k))
@@ -145,7 +147,7 @@ func c17Value(rng *rand.Rand, t reflect.Type, gidx []int) (reflect.Value, string
 		case "all-empty":
 		case "one-set":
 			if !first[gi] {
-				set(fv, 1+rng.Intn(2))
+				set(fv, 1+rng.Intn(3))
 			}
 		case "all-equal":
 			set(fv, 1)
@@ -507,6 +509,14 @@ func c17FlatCase(res *core.Result, rng *rand.Rand, idx int) {
 		for _, k := range keys {
 			q = append(q, url.QueryEscape(k)+"="+url.QueryEscape(vals[k]))
 			entries = append(entries, ref.FlatEntry{Key: k, Val: reflect.ValueOf(vals[k])})
+		}
+		if rng.Intn(4) == 0 {
+			// a parameter given twice (a=&b=&a=x): every occurrence is a value of that member
+			k := keys[rng.Intn(len(keys))]
+			nv := []string{"", "x", "same", "other"}[rng.Intn(4)]
+			q = append(q, url.QueryEscape(k)+"="+url.QueryEscape(nv))
+			entries = append(entries, ref.FlatEntry{Key: k, Val: reflect.ValueOf(nv)})
+			res.Count("url_repeated_parameter_cases")
 		}
 		u := "http://h.example/p?" + strings.Join(q, "&")
 		env := &ref.Env{}
